@@ -39,6 +39,8 @@ type SRule struct {
 	RHS   []*SNode
 	Arrow string // rule-level `-> Arrow`
 	Code  string // end-of-rule semantic action `{ … }` (no influence on the events)
+	Part  int    // 0 = the definition `N : …;`, k > 0 = the k-th `extend N : …;` clause further down
+	Blank bool   // an empty alternative written as nothing instead of `%empty`
 }
 
 // SGram is the annotated source grammar. Symbol numbering and names are those of Gram.
@@ -51,6 +53,17 @@ type SGram struct {
 	// changes the signature of its Parse function). Types have no influence on the events; they make
 	// the compiler's default-action (cast) machinery run next to the nested arrows.
 	Types map[int]string
+	// Defaults: nonterminal-level arrow `N -> D : …` of the definition / extend clause (lhs, part); it
+	// applies to every alternative of that clause that has no arrow of its own, the empty one included.
+	Defaults map[[2]int]string
+}
+
+// effArrow: the rule's own arrow or the nonterminal-level default of its clause.
+func (sg *SGram) effArrow(rl SRule) string {
+	if rl.Arrow != "" {
+		return rl.Arrow
+	}
+	return sg.Defaults[[2]int{rl.LHS, rl.Part}]
 }
 
 func (sg *SGram) symText(s int) string {
@@ -156,6 +169,9 @@ func (sg *SGram) TM(name string, o TMOpts) string {
 	if o.FixWhitespace {
 		sb.WriteString("fixWhitespace = true\n")
 	}
+	if o.Minimize {
+		sb.WriteString("minimizeDFA = true\n")
+	}
 	sb.WriteString("\n::lexer\n\n")
 	if o.Space {
 		sb.WriteString("WhiteSpace: /[ ]+/ (space)\n")
@@ -177,23 +193,33 @@ func (sg *SGram) TM(name string, o TMOpts) string {
 		ins = append(ins, s)
 	}
 	fmt.Fprintf(&sb, "%%input %s;\n\n", strings.Join(ins, ", "))
-	var order []int
-	seen := map[int]bool{}
-	for _, rl := range sg.Rules {
-		if !seen[rl.LHS] {
-			seen[rl.LHS] = true
-			order = append(order, rl.LHS)
+	// definitions in order of first appearance, then the extend clauses
+	var order [][2]int
+	seen := map[[2]int]bool{}
+	for pass := 0; pass < 2; pass++ {
+		for _, rl := range sg.Rules {
+			k := [2]int{rl.LHS, rl.Part}
+			if !seen[k] && (rl.Part == 0) == (pass == 0) {
+				seen[k] = true
+				order = append(order, k)
+			}
 		}
 	}
-	for _, lhs := range order {
-		if sg.Types[lhs] != "" {
-			fmt.Fprintf(&sb, "%s {%s} :\n", sg.names.SymName(lhs), sg.Types[lhs])
-		} else {
-			fmt.Fprintf(&sb, "%s :\n", sg.names.SymName(lhs))
+	for _, k := range order {
+		lhs := k[0]
+		head := sg.names.SymName(lhs)
+		if k[1] > 0 {
+			head = "extend " + head
+		} else if sg.Types[lhs] != "" {
+			head += " {" + sg.Types[lhs] + "}"
 		}
+		if d := sg.Defaults[k]; d != "" {
+			head += " -> " + d
+		}
+		sb.WriteString(head + " :\n")
 		first := true
 		for _, rl := range sg.Rules {
-			if rl.LHS != lhs {
+			if rl.LHS != lhs || rl.Part != k[1] {
 				continue
 			}
 			if first {
@@ -203,7 +229,9 @@ func (sg *SGram) TM(name string, o TMOpts) string {
 				sb.WriteString("  | ")
 			}
 			if len(rl.RHS) == 0 {
-				sb.WriteString("%empty")
+				if !rl.Blank || rl.Code != "" || rl.Arrow != "" {
+					sb.WriteString("%empty")
+				}
 			} else {
 				sg.renderSeq(&sb, rl.RHS)
 			}
@@ -508,7 +536,10 @@ func mandatory(nodes []*SNode) {
 // nothing else) are added to the alphabet; lists over them are inserted into rules (a fresh element
 // rarely introduces a conflict), so most grammars get several lists over the SAME element.
 func decorateSrc(r *rand.Rand, g0 *Gram, fixWS bool) (*SGram, map[string]bool) {
-	const extra = 2
+	extra := 4
+	if g0.NT-1+extra > 26 {
+		extra = 2 // single-letter terminals only
+	}
 	g := &Gram{NT: g0.NT + extra, NN: g0.NN, Shape: g0.Shape}
 	mv := func(s int) int {
 		if s >= g0.NT {
@@ -560,8 +591,116 @@ func decorateSrc(r *rand.Rand, g0 *Gram, fixWS bool) (*SGram, map[string]bool) {
 	for _, rl := range g.Rules {
 		sg.Rules = append(sg.Rules, d.rule(rl))
 	}
-	d.assignTypes(sg, 0, 0)
+	// a "number" nonterminal: several single-terminal alternatives over two terminals nothing else
+	// uses, each with its own rule-level arrow (typed below so that they share one cast action)
+	num, y, z := 0, g0.NT+2, g0.NT+3
+	if extra == 4 && r.Intn(5) < 2 && len(sg.Rules) > 0 {
+		num = g.NT + g.NN
+		g.NN++
+		sg.NN = g.NN
+		ri := r.Intn(len(sg.Rules))
+		rhs := sg.Rules[ri].RHS
+		pos := r.Intn(len(rhs) + 1)
+		var ref *SNode = symNode(num)
+		if r.Intn(3) == 0 {
+			ref = &SNode{Kind: skGroup, Kids: []*SNode{ref}, Arrow: d.arrow("T")}
+		}
+		sg.Rules[ri].RHS = append(append(append([]*SNode(nil), rhs[:pos]...), ref), rhs[pos:]...)
+		sg.Rules = append(sg.Rules, SRule{LHS: num, RHS: []*SNode{symNode(y)}, Arrow: d.arrow("Dec")}, SRule{LHS: num, RHS: []*SNode{symNode(z)}, Arrow: d.arrow("Hex")})
+		d.features["number nonterminal (single-terminal alternatives with different arrows)"] = true
+	}
+	d.splitAndDefaults(sg, map[int]bool{num: true})
+	d.assignTypes(sg, false, func(pool []string, isInput map[int]bool) {
+		if num > 0 && r.Intn(5) != 0 {
+			sg.Types[num], sg.Types[y], sg.Types[z] = pool[0], pool[1], pool[1]
+			d.features["typed number nonterminal sharing one cast action"] = true
+		}
+	})
 	return sg, d.features
+}
+
+// splitAndDefaults (a) turns some empty alternatives into BARE ones (no arrow of their own, written
+// `%empty` or as nothing), (b) splits the alternatives of some nonterminals into the definition and
+// `extend N : …;` clauses rendered further down - preferably such that one part is a single bare
+// empty alternative -, (c) gives some clauses a nonterminal-level arrow `N -> D : …` and removes the
+// own arrow of most of their alternatives, which then inherit D (the empty alternative included).
+func (d *srcDeco) splitAndDefaults(sg *SGram, skip map[int]bool) {
+	sg.Defaults = map[[2]int]string{}
+	for lhs := sg.NT; lhs < sg.NT+sg.NN; lhs++ {
+		if skip[lhs] {
+			continue
+		}
+		var idx []int
+		empty := -1
+		for i := range sg.Rules {
+			if sg.Rules[i].LHS == lhs {
+				idx = append(idx, i)
+				if len(sg.Rules[i].RHS) == 0 {
+					empty = i
+				}
+			}
+		}
+		if len(idx) == 0 {
+			continue
+		}
+		if empty >= 0 && d.r.Intn(3) != 0 {
+			sg.Rules[empty].Arrow = ""
+			sg.Rules[empty].Blank = d.r.Intn(3) == 0
+		}
+		parts := 1
+		loneEmpty := -1
+		if len(idx) >= 2 && (d.r.Intn(3) == 0 || (empty >= 0 && d.r.Intn(2) == 0)) {
+			parts = 2
+			d.features["extend clause"] = true
+			if empty >= 0 && d.r.Intn(4) != 0 {
+				// the empty alternative alone in one clause, the others in the other one
+				sg.Rules[empty].Arrow = ""
+				pe := d.r.Intn(2)
+				for _, i := range idx {
+					sg.Rules[i].Part = 1 - pe
+				}
+				sg.Rules[empty].Part = pe
+				loneEmpty = pe
+				d.features["extend split in which one clause is a single bare empty alternative"] = true
+			} else {
+				k := 1 + d.r.Intn(len(idx)-1)
+				for n, i := range idx {
+					if n >= k {
+						sg.Rules[i].Part = 1
+					}
+				}
+				if len(idx)-k >= 2 && d.r.Intn(3) == 0 {
+					sg.Rules[idx[len(idx)-1]].Part = 2
+					parts = 3
+				}
+			}
+		}
+		for p := 0; p < parts; p++ {
+			bare := false
+			for _, i := range idx {
+				if sg.Rules[i].Part == p && len(sg.Rules[i].RHS) == 0 && sg.Rules[i].Arrow == "" {
+					bare = true
+				}
+			}
+			if (d.r.Intn(5) < 3 && !(bare && d.r.Intn(2) == 0)) || (p == loneEmpty && d.r.Intn(4) != 0) {
+				continue
+			}
+			d.nextT++
+			sg.Defaults[[2]int{lhs, p}] = fmt.Sprintf("D%d", d.nextT)
+			d.features["nonterminal-level arrow"] = true
+			for _, i := range idx {
+				if sg.Rules[i].Part != p {
+					continue
+				}
+				if d.r.Intn(5) < 3 {
+					sg.Rules[i].Arrow = ""
+				}
+				if len(sg.Rules[i].RHS) == 0 && sg.Rules[i].Arrow == "" && sg.Rules[i].Code == "" {
+					d.features["nonterminal-level arrow over a bare empty alternative"] = true
+				}
+			}
+		}
+	}
 }
 
 var srcTypePool = []string{"int", "string", "[]int", "float64", "map[string]bool"}
@@ -611,8 +750,8 @@ func hasInlineArrow(nodes []*SNode) bool {
 // assignTypes gives value types to most terminals and to the nonterminals that are not inputs
 // (2-3 types per grammar, so that a rule's first symbol has the type of its left-hand side in some
 // rules and another type in others), and end-of-rule action code to a few rules.
-func (d *srcDeco) assignTypes(sg *SGram, lhs, lead int) {
-	if (lhs == 0 && d.r.Intn(4) == 0) || d.r.Intn(10) == 0 {
+func (d *srcDeco) assignTypes(sg *SGram, template bool, force func(pool []string, isInput map[int]bool)) {
+	if (!template && d.r.Intn(4) == 0) || d.r.Intn(10) == 0 {
 		return // an untyped grammar
 	}
 	perm := d.r.Perm(len(srcTypePool))
@@ -635,9 +774,8 @@ func (d *srcDeco) assignTypes(sg *SGram, lhs, lead int) {
 			sg.Types[s] = pool[d.r.Intn(len(pool))]
 		}
 	}
-	if lhs > 0 && !isInput[lhs] && d.r.Intn(6) != 0 {
-		// the template's statement nonterminal and the first terminal of one of its rules: two types
-		sg.Types[lhs], sg.Types[lead] = pool[0], pool[1]
+	if force != nil {
+		force(pool, isInput)
 	}
 	d.features["value types"] = true
 	for i := range sg.Rules {
@@ -671,9 +809,9 @@ func (d *srcDeco) assignTypes(sg *SGram, lhs, lead int) {
 //	N2 (tail)  : ('e' -> T)? | 'e'* | %empty | 'e' 'e'
 //	N3 (expr)  : 'f' (N1 -> PI)? 'c' ('d' -> PL)* 'f' -> RP        (own names)
 func tmplSrc(r *rand.Rand) (*SGram, map[string]bool) {
-	const a, b, c, dd, e, f = 1, 2, 3, 4, 5, 6
-	g := &Gram{NT: 7, NN: 4, Shape: "template"}
-	n0, n1, n2, n3 := g.NT, g.NT+1, g.NT+2, g.NT+3
+	const a, b, c, dd, e, f, gg, hh = 1, 2, 3, 4, 5, 6, 7, 8
+	g := &Gram{NT: 9, NN: 5, Shape: "template"}
+	n0, n1, n2, n3, n4 := g.NT, g.NT+1, g.NT+2, g.NT+3, g.NT+4
 	d := &srcDeco{r: r, g: g, listSpec: map[int][2]int{}, listed: map[int]int{}, features: map[string]bool{}, fresh: []int{e, f}}
 	sg := &SGram{NT: g.NT, NN: g.NN, names: g}
 	marker := func(k int) *SNode { return &SNode{Kind: skMarker, Name: fmt.Sprintf("m%d", k)} }
@@ -757,6 +895,14 @@ func tmplSrc(r *rand.Rand) (*SGram, map[string]bool) {
 	default:
 		sg.Rules = append(sg.Rules, SRule{LHS: n2, RHS: []*SNode{{Kind: skGroup, Kids: []*SNode{symNode(e)}, Opt: true}}})
 	}
+	// statement C: a number (single-terminal alternatives with different rule-level arrows)
+	stC := []*SNode{symNode(n4)}
+	if opt(35) {
+		stC = []*SNode{{Kind: skGroup, Kids: []*SNode{symNode(n4)}, Arrow: d.arrow("T")}, symNode(dd)}
+	}
+	sg.Rules = append(sg.Rules, SRule{LHS: n1, RHS: stC, Arrow: ruleArrow(70)})
+	sg.Rules = append(sg.Rules, SRule{LHS: n4, RHS: []*SNode{symNode(gg)}, Arrow: d.arrow("Dec")}, SRule{LHS: n4, RHS: []*SNode{symNode(hh)}, Arrow: d.arrow("Hex")})
+	d.features["number nonterminal (single-terminal alternatives with different arrows)"] = true
 	// the second input with its own names
 	pl := &SNode{Kind: skList, Kids: []*SNode{symNode(dd)}, Arrow: "PL"}
 	ex := []*SNode{symNode(f), {Kind: skGroup, Kids: []*SNode{symNode(n1)}, Arrow: "PI", Opt: true}, symNode(c), pl, symNode(f)}
@@ -769,7 +915,17 @@ func tmplSrc(r *rand.Rand) (*SGram, map[string]bool) {
 		sg.Inputs = append(sg.Inputs, GInput{Sym: n1, Eoi: true})
 	}
 	d.features["template"] = true
-	d.assignTypes(sg, n1, a)
+	d.splitAndDefaults(sg, map[int]bool{n3: true, n4: true})
+	d.assignTypes(sg, true, func(pool []string, isInput map[int]bool) {
+		if !isInput[n1] && r.Intn(6) != 0 {
+			// the statement nonterminal and the first terminal of one of its rules: two types
+			sg.Types[n1], sg.Types[a] = pool[0], pool[1]
+		}
+		if r.Intn(6) != 0 {
+			sg.Types[n4], sg.Types[gg], sg.Types[hh] = pool[0], pool[1], pool[1]
+			d.features["typed number nonterminal sharing one cast action"] = true
+		}
+	})
 	return sg, d.features
 }
 
@@ -1261,8 +1417,8 @@ func (o *srcOracle) walkNT(sym, i, j int) (srcItem, []srcEvent) {
 		o.walkSeq(rl.RHS, i, j, f)
 		s, e := o.span(f.items, j)
 		evs := append(f.evs, f.inline...)
-		if rl.Arrow != "" {
-			evs = append(evs, srcEvent{rl.Arrow, s, e})
+		if ar := o.g.effArrow(rl); ar != "" {
+			evs = append(evs, srcEvent{ar, s, e})
 		}
 		return srcItem{s, e}, evs
 	}
